@@ -43,7 +43,7 @@ EV_NOTE = ("Trusted: the harness's fake poll(2)/clock (link-time interposition),
            "clang ASan/UBSan. Bounded: see evidence coverage.bounds; no claim beyond those program depths, descriptor counts and deviation bounds.")
 CLAIMS = {
     "C04": dict(
-        text="Every program of register/cancel/reset/run/spin/interrupt operations (main context and inside callbacks) up to the stated depth is executed on the real events/*.c against every poll answer/clock advance within the deviation bound; a lock-step monitor checks at-most-once, only-while-registered, only-when-due at every callback entry and that the polled set equals the live registrations. State matching on the implementation's real internal arrays + monitor makes the enumeration complete within the bound.",
+        text="Every program of register/cancel/reset/run/spin/interrupt/sleep operations (main context and, several per callback, inside callbacks) up to the stated bounds is executed on the real events/*.c against every poll answer/clock advance within the deviation bound; a lock-step monitor checks at-most-once, only-while-registered, only-when-due at every callback entry and that the polled set equals the live registrations. State matching on the implementation's real internal arrays + monitor makes the enumeration complete within the bound.",
         note=EV_NOTE, technique="stateless deviation-bounded model checking of the real event loop under a fake kernel, shared state table", engine="mc"),
     "C05": dict(
         text="Same exploration as C04 with the ordering/progress/status monitor: immediate > ready socket > expired timer, priority+FIFO, deadline order, poll timeout bound, progress on wake-up, first non-zero status returned, no dispatch after stop/interrupt.",
